@@ -182,3 +182,43 @@ theorem reserveOne_spec (v v' : VecSt) (es : List Event) (hwf : v.WF)
     exact ⟨by omega, rfl, rfl, hwf, rfl, rfl, rfl, rfl, rfl, rfl, rfl⟩
 
 end AnyVec
+
+namespace AnyVec
+
+def Cell.idOr0 : Cell → Nat
+  | .val id => id
+  | .uninit => 0
+
+/-- slots `[i, i+k)` hold elements -/
+def VecSt.InitRange (v : VecSt) (i k : Nat) : Prop := ∀ j, j < k → ∃ id, v.cells.get (i + j) = .val id
+
+/-- every visible slot holds an element -/
+def VecSt.Init (v : VecSt) : Prop := v.InitRange 0 v.len
+
+/-- identities in slots `[i, i+k)` -/
+def VecSt.idsRange (v : VecSt) (i k : Nat) : List Nat := (List.range k).map (fun j => (v.cells.get (i + j)).idOr0)
+
+/-- identities of the visible elements, in order -/
+def VecSt.ids (v : VecSt) : List Nat := v.idsRange 0 v.len
+
+@[simp] theorem VecSt.idsRange_length (v : VecSt) (i k : Nat) : (v.idsRange i k).length = k := by
+  simp [VecSt.idsRange]
+
+theorem VecSt.idsRange_get (v : VecSt) (i k j : Nat) (hj : j < k) (h : v.InitRange i k) :
+    v.cells.get (i + j) = .val ((v.idsRange i k).getD j 0) := by
+  obtain ⟨id, hid⟩ := h j hj
+  simp [VecSt.idsRange, List.getD_eq_getElem?_getD, hj, hid, Cell.idOr0]
+
+theorem VecSt.abs_eq_ids (v : VecSt) (hwf : v.WF) (h : v.Init) : v.abs = v.ids.map Cell.val := by
+  have h1 := hwf.len_le
+  apply List.ext_getElem?
+  intro k
+  simp only [VecSt.abs, VecSt.ids, VecSt.idsRange, List.getElem?_take, List.getElem?_map, List.getElem?_range]
+  by_cases hk : k < v.len
+  · obtain ⟨id, hid⟩ := h k hk
+    have hk2 : k < v.cells.length := by omega
+    simp [Mem.get, List.getD_eq_getElem?_getD, hk2] at hid
+    simp [hk, hk2, Mem.get, List.getD_eq_getElem?_getD, hid, Cell.idOr0]
+  · simp [hk]
+
+end AnyVec
